@@ -22,7 +22,7 @@ RULE = ("systematic single-edit neighbourhoods of a fixed corpus + seeded mutati
         "distinct = distinct (text, dialect, level)")
 ASSUMPTIONS = ["nesting depth of inputs stays far below the interpreter's recursion limit, so RecursionError is the library's"]
 SPEC = {
-    "quick": {"shards": 16, "time_cap": 200, "corpus_stride": 4, "dialects_per_stmt": 2, "seeded": 20000, "kw_stride": 3},
+    "quick": {"shards": 16, "time_cap": 200, "corpus_stride": 4, "dialects_per_stmt": 2, "seeded": 20000, "kw_stride": 3, "zoo_stride": 1},
     "thorough": {"shards": 16, "time_cap": 2400, "corpus_stride": 1, "dialects_per_stmt": 4, "seeded": 150000, "kw_stride": 1},
 }
 INSERTS = ["(", ")", ",", ".", "*", "NOT", "AND", "SELECT", "FROM", "BY", "AS", "NULL", "'x'", "1", "}", "{", "[", "]", ";",
@@ -79,6 +79,48 @@ def keyword_neighbourhood():
         for pos in range(1, len(toks) + 1):
             for ki, kw in enumerate(kws):
                 yield bi, pos, ki, stmts.join_tokens(toks[:pos] + [kw] + toks[pos:])
+
+
+def type_zoo(ctx, all_d, stride):
+    import sqlglot
+    from sqlglot.errors import SqlglotError, ErrorLevel
+    from sqlglot.tokens import TokenType
+    from sqlglot.dialects.dialect import Dialect
+
+    names = set()
+    for d in ("", "bigquery", "snowflake", "duckdb", "postgres", "mysql", "tsql", "clickhouse", "oracle", "spark"):
+        D = Dialect.get_or_raise(d)
+        types = getattr(D.parser_class, "TYPE_TOKENS", set())
+        names |= {k for k, v in D.tokenizer_class.KEYWORDS.items() if v in types and k.replace("_", "").isalnum()}
+    params = ["", "(1)", "(10, 2)", "(40, 2, 3)", "(1, 2, 3, 4)"]
+    B = budget()
+    n = 0
+    for ti, name in enumerate(sorted(names)):
+        for pi, par in enumerate(params):
+            n += 1
+            if n % ctx.nshards != ctx.shard or (ti + pi) % stride:
+                continue
+            if ctx.expired():
+                return
+            text = f"SELECT CAST(x AS {name}{par})"
+            for read in ("", "bigquery", "snowflake"):
+                st, trees = B.run(lambda: sqlglot.parse(text, read=read), work_limit(30))
+                ctx.count("api_calls")
+                ctx.count("evaluations")
+                if st != "ok" or not trees or trees[0] is None:
+                    continue
+                ctx.count("type_zoo_trees")
+                for target in all_d:
+                    st2, val = B.run(lambda: trees[0].sql(dialect=target), work_limit(60))
+                    ctx.count("api_calls")
+                    ctx.count("evaluations")
+                    ctx.count("generate_calls")
+                    case = {"sql": text, "dialect": read or "base", "target": target or "base"}
+                    if st2 == "budget":
+                        ctx.violation(f"work-budget-exceeded:generate:{target or 'base'}", {"sql": text, "to": target or "base"}, case)
+                    elif st2 == "exc" and not isinstance(val, SqlglotError):
+                        mod, fn = call_site(val)
+                        ctx.violation(f"leak:generate:{type(val).__name__}:{mod}:{fn}", {"sql": text, "from": read or "base", "to": target or "base", "error": repr(val)[:200]}, case)
 
 
 def call_site(exc):
@@ -251,6 +293,8 @@ def worker(ctx):
         ctx.count("keyword_neighbourhood_inputs")
         rng = _random.Random(f"kw:{n}")
         run_input(ctx, text, [all_d[(bi * 5 + ki) % len(all_d)]], rng, f"keyword:{bi}:{pos}")
+    # ---- (1c) type zoo: every type keyword x 0..4 parameters, parsed in a few dialects, written to every dialect ----
+    type_zoo(ctx, all_d, spec.get("zoo_stride", 1))
     # ---- (2) seeded -------------------------------------------------------------------
     # The library has a long tail of genuine internal-exception leaks on malformed input (about one new call site
     # per 20 seeds of this workload, see DESIGN.md); every one that the quick tier can reach has to be listed in
